@@ -296,7 +296,49 @@ class ExprMixin(CallMixin):
                 out.append(self.eval(x, env, module))
         return out
 
+    def force_lazy(self, g: V):
+        """A generator expression over a generator object that nobody has consumed yet: evaluate it now, to the end."""
+        lz = getattr(g, "_lazy", None)
+        if lz is None:
+            return
+        g._lazy = None  # type: ignore[attr-defined]
+        e, env, module, src = lz
+        gen = e.generators[0]
+        loc = dict(env)
+        while src._pos < len(src.items):
+            item = src.items[src._pos]
+            src._pos += 1
+            self.assign(gen.target, item, loc, module)
+            if all(self.truthy(self.eval(c, loc, module), c) for c in gen.ifs):
+                g.items.append(self.eval(e.elt, loc, module))
+
+    def lazy_any_all(self, name: str, g: V) -> Optional[V]:
+        """any()/all() over such a lazy generator expression: stops at the first deciding element, leaving the rest of the source"""
+        lz = getattr(g, "_lazy", None)
+        if lz is None:
+            return None
+        e, env, module, src = lz
+        gen = e.generators[0]
+        loc = dict(env)
+        while src._pos < len(src.items):
+            item = src.items[src._pos]
+            src._pos += 1
+            self.assign(gen.target, item, loc, module)
+            if not all(self.truthy(self.eval(c, loc, module), c) for c in gen.ifs):
+                continue
+            t = self.truthy(self.eval(e.elt, loc, module), name)
+            if name == "any" and t:
+                return TRUE
+            if name == "all" and not t:
+                return FALSE
+        g._lazy = None  # type: ignore[attr-defined]
+        return Const(name == "all")
+
     def concrete_items(self, v: V) -> Optional[List[V]]:
+        if isinstance(v, PyList) and getattr(v, "_lazy", None) is not None:
+            self.force_lazy(v)
+        if isinstance(v, PyList) and getattr(v, "_gen", False) and not v.loop_parts and getattr(v, "_pos", 0):
+            return list(v.items[v._pos:])  # what a partly consumed generator still holds
         if isinstance(v, (PyTuple,)):
             return list(v.items)
         if isinstance(v, PyList) and not v.loop_parts:
@@ -579,7 +621,7 @@ class ExprMixin(CallMixin):
             if items is None:
                 raise AnalysisError("nested comprehension over a non-constant iterable unsupported", module.loc(e))
             for item in items:
-                inner = dict(loc)
+                inner = loc  # one scope for all iterations (late binding of closures)
                 self.assign(g.target, item, inner, module)
                 if all(self.truthy(self.eval(c, inner, module), c) for c in g.ifs):
                     level(i + 1, inner)
@@ -608,7 +650,7 @@ class ExprMixin(CallMixin):
             it = self.resolve_alt(self.eval(g.iter, loc, module))
 
             def body(item):
-                inner = dict(loc)
+                inner = loc  # the comprehension has one scope: a closure created in it sees the bindings of the last iteration
                 self.assign(g.target, item, inner, module)
                 for c in g.ifs:
                     if not self.truthy(self.eval(c, inner, module), c):
@@ -625,6 +667,15 @@ class ExprMixin(CallMixin):
             return self._nested_comprehension(e, env, module)
         g = e.generators[0]
         it = self.resolve_alt(self.eval(g.iter, env, module))
+        if isinstance(e, ast.GeneratorExp) and isinstance(it, PyList) and getattr(it, "_gen", False) and not it.loop_parts \
+                and getattr(it, "_lazy", None) is None:
+            # a generator expression over a generator object pulls from it only when asked: any()/all() may stop early
+            lazy = PyList([])
+            lazy.created_in = self._frame_id()
+            lazy._gen = True   # type: ignore[attr-defined]
+            lazy._pos = 0      # type: ignore[attr-defined]
+            lazy._lazy = (e, dict(env), module, it)  # type: ignore[attr-defined]
+            return lazy
         items = self.concrete_items(it)
         if items is None and isinstance(it, PyDict):
             items = [key_to_val(k) for k in it.items]
@@ -634,8 +685,8 @@ class ExprMixin(CallMixin):
             items = [Const(ch) for ch in it.const()]
         if items is not None:
             out: List[V] = []
+            loc = dict(env)  # one scope for the whole comprehension, as in Python: closures made in it see the last binding
             for item in items:
-                loc = dict(env)
                 self.assign(g.target, item, loc, module)
                 if all(self.truthy(self.eval(c, loc, module), c) for c in g.ifs):
                     out.append(self.eval(e.elt, loc, module))
